@@ -5,7 +5,7 @@ from vmon import core, snap
 from vmon.core import REC, SKIP
 from models import tiers as M
 from workloads import gen
-from checks.common import num, call, ents_of, scale_of, desc, check_result_tier, make_tier, rand_tier, receiver_changed, refused_edits
+from checks.common import num, call, ents_of, scale_of, desc, check_result_tier, make_tier, rand_tier, receiver_changed, refused_edits, renamed_elsewhere, piece
 
 PROP = "C09"
 NSHARDS = {"quick": 8, "thorough": 16}
@@ -468,6 +468,19 @@ def _workload(tier, rng, shard, nshards):
         for off in grid_offs:
             call(t.editTimestamps, off, RMODES[(len(ents) + int(off * 16)) % 3])
 
+    # a point tier built from its points alone (no span given): one mark, or several on one instant, make a tier whose span is that
+    # instant - a tier like any other when it is shifted or appended to
+    from praatio.data_classes.point_tier import PointTier as _PT
+
+    for _q in range((80 if tier == "quick" else 2000) // nshards + 1):
+        with piece("span-less point tier"):
+            x_ = rng.choice([1.0, 0.5, 2.25, rng.randrange(1, 400) / 100])
+            pts = [(x_, "a")] + ([(x_, "b")] if rng.random() < 0.3 else [])
+            lone = _PT("lone", pts)
+            REC.cls("C09:point-tier-whose-span-is-one-instant")
+            for off in (0.0, 0, rng.choice([0.25, -0.25, 1.0]), -x_, -(x_ + 1.0)):
+                call(lone.editTimestamps, off, rng.choice(RMODES))
+            call(lone.appendTier, _PT("more", [(0.5, "m")], 0.0, 1.0))
     n = (12000 if tier == "quick" else 400000) // nshards
     pool = []
     for i in range(n):
@@ -529,6 +542,8 @@ def _workload(tier, rng, shard, nshards):
             B = Textgrid(0.0, rng.choice([1.0, 2.5]))
         if rng.random() < 0.1:
             refused_edits(rng.choice([A, B]), rng)
+        if rng.random() < 0.15:
+            renamed_elsewhere(rng.choice([A, B]), rng)
         C = call(A.appendTextgrid, B, rng.random() < 0.5)
         if C is not None and len(C.tierNames) and rng.random() < 0.7:
             # chaining: tiers that were only in A end before the combined textgrid does
